@@ -1,13 +1,13 @@
 #!/usr/bin/env python3
 """Sensitivity of the interpreter tie (tools/rs2lean_vm.py + lean/FancyModel/Proofs/C05f.lean).
 
-For the unmutated /repo/src/vm.rs, fifteen hand-made mutations, five meaning-preserving controls, one change outside the subset and every
+For the unmutated /repo/src/vm.rs, hand-made mutations, meaning-preserving controls, one change outside the subset and every
 seeded/*/*/patch.diff that changes the text of `fn run` in src/vm.rs: translate a scratch COPY of the file into a scratch
 GeneratedVM.lean, compile it to a scratch .olean (module VmScratch.GeneratedVM), and elaborate a copy of Proofs/C05f.lean
 in which only the import line `import FancyModel.GeneratedVM` is redirected to it. Nothing under /repo or /verif/lean is
 written. Prints a markdown table.
 
-usage: rs2lean_vm_sensitivity.py [--work DIR]      (default /tmp/vmsens)
+usage: rs2lean_vm_sensitivity.py [--work DIR] [--only SUBSTRING-OF-THE-CASE-NAME]      (default /tmp/vmsens)
 """
 import glob, os, re, shutil, subprocess, sys
 
@@ -126,6 +126,28 @@ def mutations(src):
                                     let end = inner_slots[(i + 1) * 2 + 1].unwrap();
                                     let slot = (start_group + i) * 2;
 ''', 'u'))
+    # ---- the widened subset (integer types and casts, typed / reordered / renamed `let`s, integer methods)
+    yield ('(control) run: the independent `let mut pc = 0;` / `let mut ix = pos;` swapped (same meaning)',
+           once(src, '    let mut pc = 0;\n    let mut ix = pos;\n', '    let mut ix = pos;\n    let mut pc = 0;\n', 'w1'))
+    yield ('(control) run: `let mut backtrack_count: usize = 0;` and `let mut pc: usize = 0;` (type annotations, same meaning)',
+           once(once(src, '    let mut backtrack_count = 0;\n', '    let mut backtrack_count: usize = 0;\n', 'w2'),
+                '    let mut pc = 0;\n', '    let mut pc: usize = 0;\n', 'w2b'))
+    yield ('(control) Lit: the local `ix_end` renamed to `n` (a name the generated code uses itself: renamed apart; same meaning)',
+           once(src, r1, r1.replace('ix_end', 'n'), 'w3'))
+    yield ('(control) Lit: `let ix_end = ix; let ix_end = ix_end + val.len();` (a shadowing `let` in the same block, same meaning)',
+           once(src, '                    let ix_end = ix + val.len();\n', '                    let ix_end = ix;\n                    let ix_end = ix_end + val.len();\n', 'w3b'))
+    yield ('(control) fail handler: the limit bound to a `let` before the loop, `let limit = options.backtrack_limit;` (same meaning)',
+           once(once(src, '    let mut backtrack_count = 0;\n', '    let limit = options.backtrack_limit;\n    let mut backtrack_count = 0;\n', 'w4'),
+                'if backtrack_count > options.backtrack_limit {', 'if backtrack_count > limit {', 'w4b'))
+    yield ('(v) fail handler: the counter is a `u32` (`let mut backtrack_count: u32 = 0;`, compared with `options.backtrack_limit as u32`)',
+           once(once(src, '    let mut backtrack_count = 0;\n', '    let mut backtrack_count: u32 = 0;\n', 'w5'),
+                'if backtrack_count > options.backtrack_limit {', 'if backtrack_count > options.backtrack_limit as u32 {', 'w5b'))
+    yield ('(w) fail handler: `backtrack_count > options.backtrack_limit.min(1000)`',
+           once(src, 'if backtrack_count > options.backtrack_limit {', 'if backtrack_count > options.backtrack_limit.min(1000) {', 'w6'))
+    yield ('(x) Lit: `ix + val.len()` -> `ix.saturating_sub(1) + val.len()`',
+           once(src, 'let ix_end = ix + val.len();', 'let ix_end = ix.saturating_sub(1) + val.len();', 'w7'))
+    yield ('(y) fail handler: the counter counts in steps of two, `backtrack_count += 1 << 1;`',
+           once(src, '        backtrack_count += 1;\n', '        backtrack_count += 1 << 1;\n', 'w8'))
     yield ('(rejected?) Any: `ix += codepoint_len_at(s, ix)` -> `ix = next_utf8(s, ix)`',
            once(src, '''                    if ix < s.len() {
                         ix += codepoint_len_at(s, ix);
@@ -162,6 +184,7 @@ def main():
     lean_bin = sh(['lake', 'env', 'which', 'lean'], cwd=LEAN).stdout.strip().split('\n')[-1]
     src = open(SRC).read()
     cases = [('unmutated /repo/src/vm.rs', src)] + list(mutations(src))
+    only = sys.argv[sys.argv.index('--only') + 1] if '--only' in sys.argv else None
     outside = []
     for p in sorted(glob.glob(os.path.join(VERIF, 'seeded', '*', '*', 'patch.diff'))):
         if 'src/vm.rs' not in open(p).read():
@@ -179,6 +202,8 @@ def main():
             outside.append(name)
         else:
             cases.append((name, text))
+    if only is not None:
+        cases = cases[:1] + [x for x in cases[1:] if only in x[0]]
     base_gen = None
     rows = []
     for i, (name, text) in enumerate(cases):
